@@ -12,5 +12,5 @@ CONSTANTS
   WeakOffByOne = FALSE
   WeakCloseNotIdempotent = FALSE
   WeakDiscardKeepsBuffer = FALSE
-INVARIANTS ExactDelivery RefusedNeverSent BufferEmptyAfterFlush FanOutComplete WithinLimit OversizeRefused FittingAccepted FlushOkWhenHealthy BufferEmptyAfterDiscard NotOpenAfterClose CloseIdempotent NeverPanics
+INVARIANTS ExactDelivery RefusedNeverSent BufferEmptyAfterFlush FanOutComplete WithinLimit OversizeRefused FittingAccepted FlushOkWhenHealthy BufferEmptyAfterDiscard NotOpenAfterClose CloseIdempotent UseAfterCloseNotOpen SecondCloseOk NeverPanics
 CHECK_DEADLOCK FALSE
